@@ -1,7 +1,8 @@
 """C16 — classes are instantiated in an order compatible with every link.
 
-  MC      tlc MC_Links      every digraph on <= 4 (quick) / <= 5 (thorough) nodes, four edge insertion orders each,
-                            plus every insertion order of every graph on <= 3 nodes: the DirectedGraph transcription
+  MC      tlc MC_Links      every digraph on <= 4 (quick) / <= 5 (thorough) nodes, four edge insertion orders each
+                            (emitted as edge masks), self-loops on <= 3 / <= 4 nodes, plus every insertion order of
+                            every graph on <= 3 nodes: the DirectedGraph transcription
                             (Alg) raises iff Cyclic and otherwise returns a topological permutation (Ref);
           tlc MC_LinksInst  every link graph (cyclic ones included) over flat / nested / deep templates of class groups
                             and class arguments, declaration orders, link orders and link styles: instantiation_order,
@@ -453,7 +454,6 @@ def main(argv):
     clock = common.Timer()
     timing = rep.extra.setdefault("timing_s", {})
     try:
-        viol_graph = []
         # ------------------------------------------------------------------ part A: MC + replay
         graph_cfgs = ["MC_Links_quick", "MC_Links_loops", "MC_Links_seq"] if tier == "quick" else ["MC_Links_loops4", "MC_Links_seq", "MC_Links_thorough"]
         n_graph_cases = 0
